@@ -5,6 +5,7 @@ package main
 
 import (
 	"encoding/hex"
+	"encoding/json"
 	"flag"
 	"fmt"
 	"os"
@@ -654,6 +655,10 @@ func (h *harness) baseCase(b string) {
 		return
 	}
 	ix := rb.VerifIndices()
+	// the decidable hypothesis of theorem relativize_no_panic (IndicesOK), checked on the implementation's own indices
+	if ix[2] > len(rb.String()) || (ix[0] != -1 && !(1 <= ix[0] && ix[0] <= len(rb.String())+1 && ix[1] <= ix[2])) {
+		h.violation("pm.base "+vh.XS(b), fmt.Sprintf("index bookkeeping of NewBaseIRI(%q) out of range: root=%d directory=%d resource=%d", b, ix[0], ix[1], ix[2]))
+	}
 	h.add("base", "pm.base "+vh.XS(b), fmt.Sprintf("%d %d %d %d %d", ix[0], ix[1], ix[2], ix[3], ix[4]), rb.IsAbs(), cmpExact)
 }
 
@@ -987,6 +992,12 @@ func (h *harness) curieCases(n int) {
 		h.add("curie-parse", "pm.cparse "+vh.XS(s), r, len(s) > 0, cmpExact)
 		c := curie.CURIE{Safe: h.r.Bool(), DefaultPrefix: h.r.Bool(), Prefix: vh.Pick(h.r, prefixPool), Reference: vh.Pick(h.r, []string{"", "x", "a:b", "[x]", "é"})}
 		h.add("curie-string", "pm.cstring "+curieTok(c), vh.XS(c.String())+" "+vh.XS(c.SafeString()), true, cmpExact)
+		// ExpandCURIE on arbitrary structs (not only what CompactCURIE builds), in an arbitrary scope
+		{
+			sc := curie.MappingScope{Safe: h.r.Bool(), DefaultPrefix: dp, DefaultPrefixEmpty: h.r.Bool(), Prefixes: iri.NewPrefixManager(toList(ms))}
+			exp, ok := sc.ExpandCURIE(c)
+			h.add("curie-expand-any", fmt.Sprintf("pm.cexpand %s %s %s %s %s", vh.B01(sc.Safe), vh.XS(dp), vh.B01(sc.DefaultPrefixEmpty), mapsTok(ms), curieTok(c)), optTok(exp, ok), ok, cmpExact)
+		}
 	}
 }
 
@@ -1046,6 +1057,27 @@ func (h *harness) replayLine(l string) {
 	}
 }
 
+// replayLines: one protocol line per line, or the JSON replay written by ./check (its "op" fields)
+func replayLines(b []byte) []string {
+	txt := strings.TrimSpace(string(b))
+	if strings.HasPrefix(txt, "{") {
+		var r struct {
+			Violations    []vh.Case `json:"violations"`
+			Disagreements []vh.Case `json:"disagreements"`
+		}
+		if err := json.Unmarshal(b, &r); err == nil {
+			var ls []string
+			for _, c := range append(r.Violations, r.Disagreements...) {
+				if strings.HasPrefix(c.Op, "pm.") {
+					ls = append(ls, c.Op)
+				}
+			}
+			return ls
+		}
+	}
+	return strings.Split(txt, "\n")
+}
+
 // ---------------------------------------------------------------- main
 
 func main() {
@@ -1066,7 +1098,7 @@ func main() {
 			fmt.Fprintln(os.Stderr, err)
 			os.Exit(2)
 		}
-		for _, l := range strings.Split(strings.TrimSpace(string(b)), "\n") {
+		for _, l := range replayLines(b) {
 			h.replayLine(l)
 		}
 	} else {
@@ -1080,7 +1112,7 @@ func main() {
 		nh, nr, nc := 12000**scale, 12000**scale, 8000**scale
 		exH, exR := 3, 3
 		if *tier == "thorough" {
-			nh, nr, nc = 400000**scale, 300000**scale, 150000**scale
+			nh, nr, nc = 1200000**scale, 900000**scale, 400000**scale
 			exH, exR = 4, 5
 		}
 		// the D12 witnesses of DESIGN §6 and the empty-path panic, always first
@@ -1104,6 +1136,9 @@ func main() {
 	}
 
 	finish := func(tag string) {
+		if rep.Cases == nil {
+			rep.Cases = []vh.Case{} // "cases": [] rather than null
+		}
 		if err := rep.Write(*out); err != nil {
 			fmt.Fprintln(os.Stderr, err)
 			os.Exit(2)
